@@ -116,7 +116,13 @@ EnvBlocks == UNION {[1..k -> Entries] : k \in 0..MaxEnv}
 \* keys made from the block itself: a whole entry "NAME=value"; an entry, a NUL and the name of the NEXT entry
 \* (the strings lie back to back in memory); an entry's name followed by NUL
 NameOrAll(e) == IF HasEq(e) THEN Name(e) ELSE e
+\* for an entry whose VALUE contains '=' (A=B=c): the text in front of each later '=' ("A=B"), that text with the
+\* '=' ("A=B="), and the piece between two '=' with the leading one ("=B")
+EqPositions(e) == {i \in 1..Len(e) : e[i] = EQ}
+ValueEqKeys(e) == UNION {{SubSeq(e, 1, p - 1), SubSeq(e, 1, p)} \cup {SubSeq(e, q, p - 1) : q \in {x \in EqPositions(e) : x < p}}
+                         : p \in {x \in EqPositions(e) : \E y \in EqPositions(e) : y < x}}
 DerivedKeys(b) == {b[k] : k \in 1..Len(b)}
+                  \cup UNION {ValueEqKeys(b[k]) : k \in 1..Len(b)}
                   \cup {b[k] \o <<0>> \o NameOrAll(b[k + 1]) : k \in 1..(Len(b) - 1)}
                   \cup {NameOrAll(b[k]) \o <<0>> : k \in 1..Len(b)}
 
@@ -183,7 +189,9 @@ AuxLoop ==
             /\ UNCHANGED <<coll, akey>>
     /\ UNCHANGED <<kase, argc, argvp, envp, out>>
 \* second repair: `if key contains '=' { return Missing }` - a name ends at the first '='
-KeyHasEq == Version \in {"fixed", "noterm"} /\ \E k \in 1..Len(key) : key[k] = EQ
+\* ("lasteq": an independent mutant - only the key's LAST byte is looked at)
+KeyHasEq == \/ Version \in {"fixed", "noterm"} /\ \E k \in 1..Len(key) : key[k] = EQ
+            \/ Version = "lasteq" /\ Len(key) > 0 /\ key[Len(key)] = EQ
 \* main(): the call under study
 Main ==
     /\ pc = "main"
